@@ -82,3 +82,62 @@ def rank(rows):
                 m[r] = [x ^ MUL[f][y] for x, y in zip(m[r], m[rk])]
         rk += 1
     return rk
+
+
+def _xor(a, b):
+    return (int.from_bytes(a, 'little') ^ int.from_bytes(b, 'little')).to_bytes(len(a), 'little')
+
+
+_TT = [bytes(MUL[c]) for c in range(256)]
+
+
+def scale(c, blk):
+    return blk.translate(_TT[c])
+
+
+def solve_unknown(mode, parity_blocks, data, unknown):
+    """data: list of blocks (bytes) with arbitrary content at the `unknown` positions; parity_blocks: list of the real
+    parity blocks of levels 0..k-1 (k >= len(unknown)).  Returns the blocks at the unknown positions such that levels
+    0..len(unknown)-1 are satisfied (every square minor of the generator is invertible), or None."""
+    k = len(unknown)
+    if k == 0:
+        return []
+    if k > len(parity_blocks):
+        return None
+    M = matrix(mode)
+    size = len(parity_blocks[0])
+    rhs = []
+    for l in range(k):
+        acc = parity_blocks[l]
+        for i, d in enumerate(data):
+            if i in unknown:
+                continue
+            acc = _xor(acc, scale(M(l, i), d))
+        rhs.append(acc)
+    # invert the k x k matrix A[l][u]
+    A = [[M(l, u) for u in unknown] for l in range(k)]
+    V = [[1 if i == j else 0 for j in range(k)] for i in range(k)]
+    for c in range(k):
+        piv = None
+        for r in range(c, k):
+            if A[r][c]:
+                piv = r
+                break
+        if piv is None:
+            return None
+        A[c], A[piv] = A[piv], A[c]; V[c], V[piv] = V[piv], V[c]
+        iv = INV[A[c][c]]
+        A[c] = [MUL[iv][x] for x in A[c]]; V[c] = [MUL[iv][x] for x in V[c]]
+        for r in range(k):
+            if r != c and A[r][c]:
+                f = A[r][c]
+                A[r] = [x ^ MUL[f][y] for x, y in zip(A[r], A[c])]
+                V[r] = [x ^ MUL[f][y] for x, y in zip(V[r], V[c])]
+    out = []
+    for j in range(k):
+        acc = bytes(size)
+        for l in range(k):
+            if V[j][l]:
+                acc = _xor(acc, scale(V[j][l], rhs[l]))
+        out.append(acc)
+    return out
